@@ -278,6 +278,7 @@ func init() {
 				return s.Accepted["dz_quad"] >= 4 && s.Accepted["dz_info"] >= 1 && s.Accepted["dz_region"] >= 1
 			})
 		partDagazStorm(c, a)
+		partStepThrough(c, a, []string{"join-vs-lastleave", "lastleave", "switch"}) // planes are kept while the session lives, also across a last departure that a join overtakes
 		partRealBinaryIntegrity(c, a, true)
 		return a.finish(c)
 	}
